@@ -479,7 +479,8 @@ def _feed_progs(res: C.Result, deep: bool, extra=()):
         tot["ended_by_exception"] += bool(info.get("ended_by_exception"))
         tot["max_depth"] = max(tot["max_depth"], info["max_depth"])
     out = C.parse_driver(C.run_driver("validators", lines))
-    res.extra["programs"] = dict(tot, programs=len(progs))
+    res.extra["programs"] = len(progs)
+    res.extra["program_ops"] = dict(tot)
     for cid, (prog, blk) in meta.items():
         r = out.get(cid)
         if r is None:
